@@ -443,6 +443,22 @@ def GenKind.nints (g : GenKind) (n : Nat) : Nat :=
   | .uniform | .yule => n - 2
   | _ => 0
 
+/-- number of `gostats.Exp` calls of a call with size `n` (also for the rejected sizes: the 2-tip
+    unrooted call of an insertion generator draws one length before `RerootFirst` fails) -/
+def GenKind.nlens (g : GenKind) (n : Int) (rooted : Bool) : Nat :=
+  match g with
+  | .uniform | .yule | .caterpillar =>
+    if n < 2 || (n < 3 && rooted) then 0
+    else (if rooted then 2 else 1) + 3 * (n.toNat - 2)
+  | .balanced => if n < 1 || (n < 2 && !rooted) then 0 else 2 * (2 ^ n.toNat - 1)
+  | .star => 0
+
+/-- number of `rand.Intn` calls, for every size -/
+def GenKind.nintsZ (g : GenKind) (n : Int) (rooted : Bool) : Nat :=
+  match g with
+  | .uniform | .yule => if n < 2 || (n < 3 && rooted) then 0 else n.toNat - 2
+  | _ => 0
+
 /-- the draws are values `Intn` can return -/
 def drawsInRange (g : GenKind) (n : Nat) (rooted : Bool) (ints : List Nat) : Bool :=
   (List.range (g.nints n)).all fun j => decide (ints.getD j 0 < g.bound rooted j)
